@@ -15,8 +15,10 @@ Check(e) ==
   /\ ~e.hung =>
      /\ Rep(e.id, "ExitZeroOnlyIfWellFormed", e.exit = 0 => WF(e))
      /\ Rep(e.id, "MalformedGivesNonZeroAndMessage", ~WF(e) => (e.exit # 0 /\ e.message))
-     /\ Rep(e.id, "WellFormedGivesCompleteOutput",
-            WF(e) => (e.exit = 0 /\ e.out1 = AllRecords(e) /\ (e.paired => e.out2 = AllRecords(e))))
+     \* "It exits with status 0 only when the input was well-formed, and then the output contains every record":
+     \* nothing is demanded of a run that refuses a well-formed input (that is not this property's business)
+     /\ Rep(e.id, "ExitZeroMeansEveryRecordWritten",
+            e.exit = 0 => (e.out1 = AllRecords(e) /\ (e.paired => e.out2 = AllRecords(e))))
      /\ Rep(e.id, "PartialOutputIsOrderedPrefix",
             /\ IsPrefixOf(e.out1, [k \in 1..Len(e.out1) |-> k - 1])
             /\ e.paired => e.out2 = e.out1)
